@@ -152,6 +152,12 @@ def closed_case(arg):
     il, _ = _imports()
     rng = random.Random(f"{fam}-{seed}")
     f, a, b, exact, p = make_family(fam, rng)
+    # the property is about a RELATIVE tolerance: the same integrand in very small or very large units
+    amp = rng.choice([1.0] * 8 + [1e-170, 1e-120, 1e120])
+    if amp != 1.0:
+        f0, exact = f, exact * amp
+        f = lambda x, f0=f0: amp * f0(x)  # noqa: E731
+        p["amplitude"] = amp
     tol = 10 ** rng.uniform(-10, -3)
     mode = rng.choice(["sequential", "shuffled", "shuffled", "children_first", "late_by_generation"])
     res = {"family": fam, "seed": seed, "cap": cap, "mode": mode, "tol": tol, "params": p, "exact": exact,
@@ -229,7 +235,7 @@ def closed_case(arg):
     res["outstanding"] = len(outstanding)
     if res["end"] == "done":
         igral, err = float(learner.igral), float(learner.err)
-        bound = max(err, tol * abs(exact)) + SLACK * max(1.0, abs(exact))
+        bound = max(err, tol * abs(exact)) + SLACK * max(res["params"].get("amplitude", 1.0), abs(exact))
         dev = abs(igral - exact)
         res.update(igral=igral, err=err, dev=dev, bound=bound,
                    ratio=(dev / bound if math.isfinite(dev) else math.inf),
